@@ -118,7 +118,7 @@ def run(ctx):
         dec, enc = gen_cases(ctx, k)
         decode.run_decode(ctx, dec, judge_decode)
         if ctx.time_left() > 60:
-            for mode in (True, "newtype", "typealias"):
+            for mode in S.WRAP_MODES:
                 dec2, enc2 = gen_cases(ctx, max(100, k // 8))
                 decode.run_decode(ctx, dec2, judge_decode, annot=mode)
                 c02.run_stream(ctx, enc2, annot=mode)
